@@ -1,5 +1,14 @@
 package drive
 
+import (
+	"context"
+	"sync"
+	"time"
+
+	"github.com/honeycombio/refinery/pubsub"
+	"github.com/jonboulle/clockwork"
+)
+
 // Shared helpers of the "sm" (small timed state machines) property family: C30 C15 C18 C34 C33.
 
 // smChunkRemovals returns index sets to KEEP for delta-debugging an op list of length n:
@@ -45,4 +54,73 @@ func smKeep[T any](xs []T, keep []int) []T {
 		out = append(out, xs[i])
 	}
 	return out
+}
+
+// ---- test doubles shared by the sm family ----
+
+// smSyncPubSub is a pubsub.PubSub that delivers every message synchronously, in subscription
+// order, on the publisher's goroutine (the repo's LocalPubSub delivers on fresh goroutines, which
+// makes single-run observations racy). It records what was published.
+type smSyncPubSub struct {
+	mu     sync.Mutex
+	subs   map[string][]*smSub
+	Sent   []smMsg
+	Closed bool
+}
+type smMsg struct{ Topic, Msg string }
+type smSub struct {
+	cb     pubsub.SubscriptionCallback
+	closed bool
+}
+
+func (s *smSub) Close() { s.closed = true }
+
+func newSmSyncPubSub() *smSyncPubSub { return &smSyncPubSub{subs: map[string][]*smSub{}} }
+
+func (p *smSyncPubSub) Start() error { return nil }
+func (p *smSyncPubSub) Stop() error  { p.Close(); return nil }
+func (p *smSyncPubSub) Close() {
+	p.mu.Lock()
+	defer p.mu.Unlock()
+	p.Closed = true
+	p.subs = map[string][]*smSub{}
+}
+func (p *smSyncPubSub) FormatTopic(topic string) string { return topic }
+func (p *smSyncPubSub) Publish(ctx context.Context, topic, message string) error {
+	p.mu.Lock()
+	p.Sent = append(p.Sent, smMsg{topic, message})
+	subs := append([]*smSub{}, p.subs[topic]...)
+	p.mu.Unlock()
+	for _, s := range subs {
+		if !s.closed {
+			s.cb(ctx, message)
+		}
+	}
+	return nil
+}
+func (p *smSyncPubSub) Subscribe(ctx context.Context, topic string, cb pubsub.SubscriptionCallback) pubsub.Subscription {
+	p.mu.Lock()
+	defer p.mu.Unlock()
+	s := &smSub{cb: cb}
+	p.subs[topic] = append(p.subs[topic], s)
+	return s
+}
+
+// smNoHealth is a health.Recorder that ignores everything.
+type smNoHealth struct{}
+
+func (smNoHealth) Register(string, time.Duration) {}
+func (smNoHealth) Unregister(string)              {}
+func (smNoHealth) Ready(string, bool)             {}
+
+// smIdleTickerClock is a FakeClock whose tickers never fire: periodic background loops of the
+// component under test stay parked while the driver calls the loop body's exported functions.
+type smIdleTickerClock struct{ clockwork.Clock }
+type smIdleTicker struct{ c chan time.Time }
+
+func (t smIdleTicker) Chan() <-chan time.Time { return t.c }
+func (t smIdleTicker) Reset(time.Duration)    {}
+func (t smIdleTicker) Stop()                  {}
+func (c smIdleTickerClock) NewTicker(time.Duration) clockwork.Ticker {
+	return smIdleTicker{c: make(chan time.Time)}
 }
